@@ -272,3 +272,42 @@ func (c *Config) DeriveBIP32(i uint32) (*Config, error) {
 	}
 	return c.Derive(scalar, newChainKey)
 }
+
+// Validate checks that the config is complete enough to start a protocol with it: a nil config
+// or one with absent secrets / public data must be refused by the start functions instead of
+// crashing them (or a later round).
+func (c *Config) Validate() error {
+	if c == nil {
+		return errors.New("config: nil")
+	}
+	if c.Group == nil {
+		return errors.New("config: no group")
+	}
+	if c.ID == "" {
+		return errors.New("config: no party ID")
+	}
+	if c.ECDSA == nil || c.ECDSA.IsZero() {
+		return errors.New("config: ECDSA secret share is missing or zero")
+	}
+	if c.ElGamal == nil || c.ElGamal.IsZero() {
+		return errors.New("config: ElGamal secret is missing or zero")
+	}
+	if c.Paillier == nil {
+		return errors.New("config: Paillier secret key is missing")
+	}
+	if err := c.RID.Validate(); err != nil {
+		return fmt.Errorf("config: %w", err)
+	}
+	if !ValidThreshold(c.Threshold, len(c.Public)) {
+		return fmt.Errorf("config: threshold %d is invalid for %d parties", c.Threshold, len(c.Public))
+	}
+	if _, ok := c.Public[c.ID]; !ok {
+		return errors.New("config: no public data for this party")
+	}
+	for j, p := range c.Public {
+		if p == nil || p.ECDSA == nil || p.ElGamal == nil || p.Paillier == nil || p.Pedersen == nil {
+			return fmt.Errorf("config: incomplete public data for party %s", j)
+		}
+	}
+	return nil
+}
